@@ -20,7 +20,7 @@ RULE = ("(1) uniform-regime files in each of 48 dialect points (four key/value s
         "(4) supplied dialects (trailing/repeated/order variations) used verbatim for reporting and printing; "
         "non-trivial = >= 3 lines (1,4) / both values present in the window (3); distinct by file text + checklines")
 REQUIRED = ["uniform files: dialect compared", "infer_dialect strings compared", "routing observed: gtf", "routing observed: gff",
-            "mixtures decided by vote", "mixtures with exact tie", "supplied dialects compared"]
+            "mixtures decided by vote", "mixtures with exact tie", "supplied dialects compared", "re-ordered feature lists compared"]
 ASSUMPTIONS = [
     "per-line exhibited dialect as defined by gvmon/models/dialect.observed (a feature a line cannot exhibit votes for the default)",
     "the inspected window is either the first `checklines` or the first `checklines`+1 feature lines; a mixture on which "
@@ -60,6 +60,8 @@ def execute(ctx, case):
             supplied(ctx, case)
         elif kind == "string":
             one_string(ctx, case)
+        elif kind == "featlist":
+            featlist(ctx, case)
     finally:
         for v in contracts.drain():
             ctx.violation(case, v)
@@ -189,6 +191,47 @@ def routing(ctx, case):
         if derived or rel != want:
             ctx.violation(case, {"why": "GFF-dialect input not imported with GFF3 semantics", "derived": derived,
                                  "relations": sorted(rel), "text": text})
+
+
+def featlist(ctx, case):
+    """Feature objects (all carrying one dialect) handed over in another order than the file's: the reported key order
+    is the first-seen order of the features actually inspected."""
+    import random
+    from gffutils.iterators import DataIterator
+
+    D, items, ck = case["D"], case["items"], case["checklines"]
+    text = F.text_of(items, D)
+    src = write(ctx, text)
+    try:
+        feats = list(DataIterator(src))
+        random.Random(case["shuffle"]).shuffle(feats)
+        keys = [list(f.attributes.keys()) for f in feats]
+
+        def first_seen(k):
+            out = []
+            for ks in keys[:k]:
+                for x in ks:
+                    if x not in out:
+                        out.append(x)
+            return out
+        if first_seen(ck) != first_seen(ck + 1) and ck > 0:
+            ctx.skip("feature list: the two window conventions see different key orders")
+            return
+        exp = M.gffutils_dialect(D, first_seen(ck + 1))
+        how = case["how"]
+        data = feats if how == "list" else (f for f in feats)
+        it = DataIterator(data, checklines=ck)
+        ctx.mon("re-ordered feature lists compared")
+        bad = diff_dialect(it.dialect, exp)
+        if bad:
+            ctx.violation(case, {"why": "dialect reported for a re-ordered list of Feature objects differs (key order = first seen among the inspected features)",
+                                 "diff(got,expected)": bad, "inspected keys": keys[:ck + 1], "how": how})
+            return
+        out = list(it)
+        if len(out) != len(feats):
+            ctx.violation(case, {"why": "re-ordered feature list: %d features in, %d out" % (len(feats), len(out))})
+    finally:
+        os.unlink(src)
 
 
 def mixture(ctx, case):
@@ -324,6 +367,13 @@ def mix_case(rng):
         la = [mk(A, rng.randrange(2, 6)) for _ in range(na)]
         lb = [mk(B, rng.randrange(2, 6)) for _ in range(nb)]
     lines = la + lb
+    if not tie and rng.random() < 0.35:
+        # a third spelling in the same window (any key/value style)
+        C = dict(base)
+        C["fmt"] = rng.choice(M.FMTS)
+        C["sep"] = rng.choice(M.SEPS)
+        lines += [mk(C, rng.randrange(2, 6)) for _ in range(rng.randrange(1, 4))]
+        key += " + third spelling"
     order = rng.random()
     if order < 0.33:
         lines = lb + la
@@ -372,6 +422,18 @@ def run(ctx):
         execute(ctx, case)
         ctx.case(("mix", case["lines"], case["checklines"]), True, sample=case if rng.random() < 0.01 else None,
                  cls="mixture key=%s tie=%s" % (case["key"], case["tie"]))
+    # (3b) Feature objects in another order than the file's
+    for _ in range(ctx.budget(300, 30000)):
+        D = rng.choice(pts)
+        n = rng.choice([3, 5, 8, 12])
+        recs = F.uniform_records(rng, D, n, ids="dups", coords=False)
+        # later lines introduce keys in their own order: drop the 'line 1 carries all keys' regularity
+        rng.shuffle(recs)
+        items = [{"t": "feat", "rec": r} for r in recs]
+        case = {"kind": "featlist", "D": D, "items": items, "checklines": rng.choice([0, 1, 2, n, 10]), "shuffle": rng.randrange(10 ** 6),
+                "how": rng.choice(["list", "generator"])}
+        execute(ctx, case)
+        ctx.case(("featlist", F.text_of(items, D), case["checklines"], case["shuffle"]), True, cls="re-ordered feature list")
     # (4) supplied dialects
     for _ in range(ctx.budget(400, 40000)):
         D = rng.choice(pts)
